@@ -63,10 +63,27 @@ package internal
 //@   ensures RT: err == nil && r == s
 
 //@ -- C16: HTTP dates (RFC 7231 IMF-fixdate), any zone in, UTC to the second out (T-time)
+//@ func internal.(*Time).MarshalText(t) (b, err)
+//@   requires R1: t != nil
+//@   ensures M1: err == nil && string(b) == timeFormat(http.TimeFormat, ns(*t))
+//@ func internal.(*Time).UnmarshalText(t, b) (err)
+//@   requires R1: t != nil
+//@   assigns HC_internal_Time
+//@   ensures U1: err == nil <==> timeParseOk(http.TimeFormat, string(b))
+//@   ensures U2: err == nil ==> ns(*t) == timeParseNs(http.TimeFormat, string(b))
+//@   ensures U3: err != nil ==> *t == old(*t) && httpCode(err) == -1 && !hostPath(err)
+//@   ensures U4: forall r *Time :: r != t ==> *r == old(*r)
 //@ func internal.verifTimeRoundTrip(t) (r, err)
 //@   ensures RT: err == nil && r.ns == truncSec(t.ns)
 
 //@ -- C16: hrefs (T-url)
+//@ func internal.(*Href).UnmarshalText(h, b) (err)
+//@   requires R1: h != nil
+//@   assigns H_internal_Href_Scheme, H_internal_Href_Opaque, H_internal_Href_User, H_internal_Href_Host, H_internal_Href_Path, H_internal_Href_RawPath, H_internal_Href_OmitHost, H_internal_Href_ForceQuery, H_internal_Href_RawQuery, H_internal_Href_Fragment, H_internal_Href_RawFragment
+//@   ensures U1: err == nil <==> urlParseOk(string(b))
+//@   ensures U2: err == nil ==> h.Path == urlParsePath(string(b))
+//@   ensures U3: err != nil ==> h.Path == old(h.Path) && httpCode(err) == -1
+//@   ensures U4: forall r *Href :: r != h && old(allocated(r)) ==> r.Path == old(r.Path)
 //@ func internal.verifHrefRoundTrip(p) (r, err)
 //@   requires R1: hasPrefix(p, "/") && !hasPrefix(p, "//")
 //@   ensures RT: err == nil && r == p
